@@ -71,6 +71,7 @@ def normalise(sc):
     sc.setdefault("detector", "none")
     sc.setdefault("exact", 0)
     sc.setdefault("dec", 0)
+    sc.setdefault("eps", 0)
     sc.setdefault("dev", [])
     sc.setdefault("couple", [])
     sc.setdefault("fault", 0)
@@ -119,12 +120,25 @@ def unit_of(sc):
     return Fraction(1, 10 ** sc.get("dec", 0))
 
 
+EPS_M = 10000
+
+
+def frac_of(sc, v):
+    """exact time value of a tick count.  Ordinary scenarios: v * 10^-dec.  Two-scale scenarios (sc["eps"] = e,
+    exact mode with 16-17 significant digits): a tick is A * EPS_M + B and stands for A * 10^-dec + B * 10^-e; the
+    map is additive and order preserving as long as |B| < EPS_M / 2, so the integer image of an exact run is a run
+    of the specification (rec.finalize inverts it and rejects dates that are not on the lattice)"""
+    if sc.get("eps"):
+        A, B = divmod(int(v), EPS_M)
+        return Fraction(A, 10 ** sc.get("dec", 0)) + Fraction(B, 10 ** sc["eps"])
+    return Fraction(v) * unit_of(sc)
+
+
 def tv(sc, v):
-    """engine value of a tick count: int when the unit is 1, else the decimal float nearest to v * 10^-dec"""
-    u = unit_of(sc)
-    if u == 1:
+    """engine value of a tick count: int when the unit is 1, else the decimal float nearest to the exact value"""
+    if unit_of(sc) == 1 and not sc.get("eps"):
         return v
-    return float(Fraction(v) * u)
+    return float(frac_of(sc, v))
 
 
 def make_dists(ciw, sc, ctx):
@@ -145,8 +159,8 @@ def make_dists(ciw, sc, ctx):
             v = ctx.draw((self.kind, self.n, self.k), self.allowed)
             i = ind.id_number if ind is not None else 0
             if isinstance(v, (int, Fraction)) and not isinstance(v, bool):
-                y = (Fraction(v) * unit if self.kind != "batch" else v)
-                if self.kind != "batch" and unit != 1:
+                y = (frac_of(sc, v) if self.kind != "batch" else v)
+                if self.kind != "batch" and (unit != 1 or sc.get("eps")):
                     v = float(y)
             else:
                 y = NONE  # fault-injection values (None, 'x', nan, ...) are logged as NONE
@@ -325,13 +339,13 @@ def to_cfg(sc):
     unit = unit_of(sc)
 
     def F(v):
-        return Fraction(v) * unit
+        return frac_of(sc, v)
 
     def fl(lst):
         return [F(v) for v in lst]
     cfg = {"N": sc["N"], "K": sc["K"], "P": len(set(sc["prio"])), "prio": list(sc["prio"]),
            "syscap": sc["syscap"], "T": F(sc["T"]) if sc["T"] < INF else INF, "stop": sc["stop"], "maxc": sc["maxc"],
-           "tracker": sc["tracker"], "observed": list(sc["observed"]), "groups": [list(g) for g in sc["groups"]], "detector": sc["detector"], "exact": sc["exact"], "dec": sc["dec"], "dev": list(sc["dev"]), "couple": list(sc["couple"]), "fault": sc["fault"], "splits": fl(sc["splits"]),
+           "tracker": sc["tracker"], "observed": list(sc["observed"]), "groups": [list(g) for g in sc["groups"]], "detector": sc["detector"], "exact": sc["exact"], "dec": sc["dec"], "eps": sc.get("eps", 0), "dev": list(sc["dev"]), "couple": list(sc["couple"]), "fault": sc["fault"], "splits": fl(sc["splits"]),
            "arrS": [[fl(c) for c in n] for n in sc["arrS"]],
            "batchS": [[list(c) for c in n] for n in sc["batchS"]],
            "svcS": [[fl(c) if c else [F(1)] for c in n] for n in sc["svcS"]],
